@@ -260,3 +260,94 @@ Definition validate_all (txts : list text) (s : store) : list (option (option bo
                 end) (seq 0 (length (anns s))).
 
 End Digest.
+
+(** * The same offsets against texts of other lengths
+   What loading the store's own serialisation against resources of the lengths [lens] resolves:
+   every text selector is written with the offset Selector::offset_with_mode reports (in the
+   alignment it was given in) and resolved again by TextResource::textselection_by_offset; an
+   annotation-relative selector is written relative to the (single) text selection of its parent
+   and resolved against the parent's new selection.  One failure refuses the whole store. *)
+
+Definition omode_of_nat (m : nat) : omode :=
+  match m with 0 => BeginBegin | 1 => BeginEnd | 2 => EndEnd | _ => EndBegin end.
+
+Fixpoint alookup {X} (h : nat) (l : list (nat * X)) : option X :=
+  match l with
+  | [] => None
+  | (k, v) :: l' => if Nat.eqb k h then Some v else alookup h l'
+  end.
+
+(* [singles]: annotation handle -> resource and new range of its single text selection *)
+Definition reresolve_leaf (s : store) (lens : nat -> nat) (singles : list (nat * (nat * (nat * nat)))) (lf : leaf)
+  : option (option (nat * (nat * nat))) :=      (* None = refused; Some None = no text *)
+  match lf with
+  | LText r t m =>
+      match get_res s r with
+      | Some rs =>
+          match nth_error (r_sels rs) t with
+          | Some rg =>
+              match resource_ts (lens r) (report_resource (r_len rs) rg (omode_of_nat m)) with
+              | Ok rg' => Some (Some (r, rg'))
+              | Err => None
+              end
+          | None => Some None
+          end
+      | None => Some None
+      end
+  | LAnnText p r t m =>
+      match get_res s r, get_ann s p with
+      | Some rs, Some pa =>
+          match nth_error (r_sels rs) t, ann_textsel s pa, alookup p singles with
+          | Some rg, Some (_, _, prg), Some (_, prg') =>
+              match relative_offset rg prg (omode_of_nat m) with
+              | Some o => match selection_ts prg' o with
+                          | Ok rg' => Some (Some (r, rg'))
+                          | Err => None
+                          end
+              | None => Some None
+              end
+          | _, _, _ => Some None
+          end
+      | _, _ => Some None
+      end
+  | _ => Some None
+  end.
+
+Fixpoint reresolve_leaves (s : store) (lens : nat -> nat) singles (l : list leaf) : option (list (nat * (nat * nat))) :=
+  match l with
+  | [] => Some []
+  | lf :: l' =>
+      match reresolve_leaf s lens singles lf, reresolve_leaves s lens singles l' with
+      | Some (Some x), Some xs => Some (x :: xs)
+      | Some None, Some xs => Some xs
+      | _, _ => None
+      end
+  end.
+
+(* the live annotations in order: their text selections in the order of the code *)
+Fixpoint reresolve_from (s : store) (lens : nat -> nat) (hs : list nat) singles
+  : option (list (list (nat * (nat * nat)))) :=
+  match hs with
+  | [] => Some []
+  | h :: hs' =>
+      match get_ann s h with
+      | None => reresolve_from s lens hs' singles
+      | Some a =>
+          match reresolve_leaves s lens singles (a_leaves a) with
+          | None => None
+          | Some l =>
+              let l' := if Nat.eqb (a_kind a) 1 || Nat.eqb (a_kind a) 2 then sort_ranges l else l in
+              let singles' := match a_kind a, a_leaves a, l with
+                              | 0, [LText _ _ _], [x] | 0, [LAnnText _ _ _ _], [x] => (h, x) :: singles
+                              | _, _, _ => singles
+                              end in
+              match reresolve_from s lens hs' singles' with
+              | Some rest => Some (l' :: rest)
+              | None => None
+              end
+          end
+      end
+  end.
+
+Definition reresolve (s : store) (lens : nat -> nat) : option (list (list (nat * (nat * nat)))) :=
+  reresolve_from s lens (seq 0 (length (anns s))) [].
